@@ -29,10 +29,10 @@ pub struct LimitWriter {
     /// what the adapter has pulled.
     pub announced: Option<usize>,
     /// Latest limit announced after the stage's input stream had ended (optional for the stage).
-    pub late: Option<usize>,
+    pub late: Vec<usize>,
     /// Announced while the stage's consumer is in the middle of a poll (F8): optional until that
     /// poll has returned, then it becomes `announced`.
-    pub during_poll: Option<usize>,
+    pub during_poll: Vec<usize>,
     pub tap: Rc<RefCell<LimTapState>>,
     pub consumer: usize,
 }
@@ -97,7 +97,7 @@ fn make_limit(
         }
     };
     let idx = limits.writers.len();
-    limits.writers.push(LimitWriter { kind: spec.kind, src, announced, late: None, during_poll: None, tap: st.clone(), consumer: cs.id });
+    limits.writers.push(LimitWriter { kind: spec.kind, src, announced, late: Vec::new(), during_poll: Vec::new(), tap: st.clone(), consumer: cs.id });
     let tap = LimitTap { inner, st, input: input.clone(), upstream, env: env.clone(), cs: cs.clone() };
     (Box::pin(tap), idx)
 }
